@@ -177,6 +177,14 @@ struct C06 : Scenario {
 				e.mode = 0644;
 				e.uid = e.gid = (int) p.geti("euid");
 				e.mtime = 1234567890;
+				if (rng.chance(1, 4)) {
+					// a symbolic link sits where the file is to go: to a directory, to a file, or to nothing; whether the member
+					// counts as existing is decided by what the link resolves to, and the link itself is what gets replaced
+					e.type = 'l';
+					e.data.clear();
+					static const char *tg[] = {".", "nowhere-at-all", "./", "..", "/w/x/y/root"};
+					e.target = tg[rng.below(5)];
+				}
 				bool clash = false;
 				for (auto &x : p.fs) if (x.path == e.path) clash = true;
 				if (!clash) p.fs.push_back(e);
@@ -316,7 +324,13 @@ struct C06 : Scenario {
 				std::string cur = out;
 				for (int hops = 0; hops < 8; ++hops) {
 					auto it = M.tree.find(cur);
-					if (it == M.tree.end()) break;
+					if (it == M.tree.end()) {
+						// outside the modelled tree (the root itself, something above or beside it): the run does not change
+						// anything there, so the initial filesystem answers
+						bool below = cur.size() > cwd.size() && cur.compare(0, cwd.size() + 1, cwd + "/") == 0;
+						if (!below && !cur.empty() && initial.lookup(cur, true) >= 0) exists = true;
+						break;
+					}
 					if (it->second.type == 'l' && (it->second.check_target || it->second.original)) {
 						std::string tg = it->second.check_target ? it->second.target : it->second.target;
 						if (tg.empty() || tg[0] == '/') { cur = tg; }
